@@ -29,6 +29,7 @@ ASSUMPTIONS = [
     "a bare top-level reference is not handed to PDFStreamParser except to exhibit known finding C01:streamparser-toplevel-ref",
 ]
 PROBES = [
+    "read under settings.STRICT",
     "nesting deeper than 1000",
     "boundary inside string escape",
     "boundary inside name #xx",
@@ -296,6 +297,24 @@ def run(tape, ctx, item=None):
     t = tape
     if t.coin(1, 120, "deep"):
         return deep_case(t, ctx)
+    if t.coin(10, 100, "strict"):
+        # conformant objects read back the same under the library's strict setting
+        from pdfminer import settings as _settings
+
+        ctx.probe("read under settings.STRICT")
+        _settings.STRICT = True
+        try:
+            out = run_value(t, ctx)
+        finally:
+            _settings.STRICT = False
+        for d in out.devs:
+            d.msg = "under settings.STRICT: " + d.msg
+        return out
+    return run_value(t, ctx)
+
+
+def run_value(t, ctx):
+    tape = t
     value = gen_value(t, t.pick([0, 1, 2, 3, 4, 6], "depth"), [t.pick([3, 10, 40, 120], "budget")])
     devs = []
     scen = []
